@@ -4,6 +4,8 @@ import (
 	"flag"
 	"fmt"
 	"os"
+
+	"github.com/couchbaselabs/rosmar"
 )
 
 func newFlagSet(name string) *flag.FlagSet { return flag.NewFlagSet(name, flag.ContinueOnError) }
@@ -13,6 +15,7 @@ func main() {
 		fmt.Fprintln(os.Stderr, "usage: vh <command> [flags]")
 		os.Exit(2)
 	}
+	rosmar.MaxDocSize = 600 // "JB" bodies and "xbig" xattr values are over this limit, everything else far below
 	var err error
 	switch os.Args[1] {
 	case "seq":
